@@ -17,7 +17,10 @@ RShape(sh, r) ==
     [] sh = "structu" -> TStruct(30, <<r>>, <<TRUE>>)
     [] sh = "ptr"     -> TPtrTo(33, TStruct(30, <<r>>, <<FALSE>>))
     [] sh = "deep"    -> TStruct(30, <<TSlice(34, <<r>>)>>, <<TRUE>>)
-RShapes == {"top", "slice", "mapval", "structE", "structu", "ptr", "deep"}
+    [] sh = "safe"    -> TSafe(31, r)
+    [] sh = "insafe"  -> TSafe(31, TSlice(30, <<r>>))
+    [] sh = "svfield" -> TSafe(31, TStruct(30, <<r>>, <<TRUE>>))
+RShapes == {"top", "slice", "mapval", "structE", "structu", "ptr", "deep", "safe", "insafe", "svfield"}
 \* what the statement says the reprint is: the punctuation of the shape around the unchanged redactable
 RWrap(sh, b, plus) ==
   CASE sh = "top"     -> b
@@ -27,6 +30,9 @@ RWrap(sh, b, plus) ==
     [] sh = "structu" -> <<123>> \o (IF plus THEN <<97, 58>> ELSE <<>>) \o b \o <<125>>
     [] sh = "ptr"     -> <<38, 123>> \o (IF plus THEN <<65, 58>> ELSE <<>>) \o b \o <<125>>
     [] sh = "deep"    -> <<123>> \o (IF plus THEN <<97, 58>> ELSE <<>>) \o <<91>> \o b \o <<93, 125>>
+    [] sh = "safe"    -> b
+    [] sh = "insafe"  -> <<91>> \o b \o <<93>>
+    [] sh = "svfield" -> <<123>> \o (IF plus THEN <<97, 58>> ELSE <<>>) \o b \o <<125>>
 R0(p) == Out(Sprint(<<TStr(1, p)>>))                             \* a redactable obtained from the library
 JoinOf(d, a, b) == Out(SBRun(<<SPrint(<<TRStr(4, a)>>), SPrint(<<TRStr(5, d)>>), SPrint(<<TRStr(6, b)>>)>>))     \* redact.Join
 ComposeRoots == Pay(IF Slice = "compose" THEN 2 ELSE 1)
